@@ -6,8 +6,9 @@ abstraction `C01.abs` of the concrete id-table store), operation by operation, f
 models.  If `Model/C01.lean` changes shape this file may be deleted without any effect on the C05 check. -/
 namespace C05
 
-/-- forget the hypergraph-level metadata -/
-def ofSpec (a : C01.Spec) : Content UKey := ⟨a.weighted, a.nodes, a.edges⟩
+/-- forget the hypergraph-level metadata (C01 uses other tokens for it; C05's incidence metadata, empty edges and
+hypergraph-level metadata are left empty: the eight linked mutators do not touch them) -/
+def ofSpec (a : C01.Spec) : Content UKey := { weighted := a.weighted, nodes := a.nodes, edges := a.edges }
 
 /-- the C01 operations that C05 models, on canonical keys -/
 def liftOp : C01.Op → Option (Op UKey)
